@@ -25,6 +25,8 @@ FIXED = [
      "two iterators after a flagged reuse, one pre-emption"),
     ("C05", ["children_contains_caller:selfloop", "children_rec_contains_caller:selfloop", "children_rec_contains_caller:cycle"],
      "fix: children() must not return the process itself", "self-parented entry / cycle through the caller"),
+    ("C05", ["parents_raised_NoSuchProcess_of_an_ancestor:midwalk_vanish"], "fix: parents() raised NoSuchProcess for an ancestor that exited during the walk",
+     "an ancestor already collected exits before its own parent() is asked: NoSuchProcess(pid=<ancestor>) from parents() of a live process"),
     ("C06", ["threads_wrong:rparen_in_thread_name"], "fix: Process.threads() returned wrong CPU times", "thread name containing ')'"),
     ("C06", ["uids_wrong:status_regex_matches_Name_line", "gids_wrong:status_regex_matches_Name_line",
              "num_threads_wrong:status_regex_matches_Name_line"], "fix: uids(), gids() and num_threads() could be spoofed",
